@@ -145,6 +145,9 @@ def run(rep: core.Report):
     from rules import shared_freshwrite
 
     shared_freshwrite.run(rep, "R19n", ["phonopy/phonon/thermal_displacement.py", "phonopy/phonon/random_displacements.py", "phonopy/harmonic/dynmat_to_fc.py"], 2)
+    from rules import shared_readonly
+
+    shared_readonly.run(rep, "R19p", ["phonopy/phonon/thermal_displacement.py", "phonopy/phonon/random_displacements.py", "phonopy/harmonic/dynmat_to_fc.py"], 3)
     _r19f(rep)
     _r19g(rep)
     # R19c
